@@ -2,6 +2,7 @@
 import random
 import warnings
 
+from common import MachineryError
 from pair_common import judge, pair_model, run_scenarios, scenarios
 
 
@@ -38,6 +39,12 @@ def model_loop(ctx, thorough):
     for _ in range(8):
         r = pair_model(ctx, thorough, extra)
         if not r.violated:
+            # the same model with abort() and the reactor's release branch split where the code takes no lock: TLC must find
+            # the two terminal notifications of the open finding "unsynchronised outcome flags"
+            rn = pair_model(ctx, thorough, extra, atomic=False)
+            if rn.violated not in ("C06_OneTerminal", "C06_OneFlag"):
+                raise MachineryError(f"the non-atomic variant of the pair model does not exhibit the outcome race ({rn.violated!r})")
+            ctx.cov["non_atomic_variant_refuted_by"] = rn.violated + ": " + " -> ".join(l for l, _ in rn.trace[-7:])
             return
         last = r.trace[-1][1]["nd"]
         labels = [l for l, _ in r.trace]
